@@ -1246,6 +1246,15 @@ impl Interp {
                 if !by_clean && owner_alive {
                     ev!("!action-early:{}", a);
                 }
+                // ... and then it runs while the owner is being destroyed, not after the owner's box has been released
+                // (unless a `clean()` in progress holds the map alive past its owner: its upgraded pointer is then the last one)
+                if !by_clean && it.cleaning.borrow().is_empty() {
+                    if let Some(o) = it.info(map).and_then(|m| it.info(m.owner)) {
+                        if !o.node.is_null() && !alloc::is_live(o.box_addr) && unsafe { &*o.node }.canary.get() == DEAD {
+                            ev!("!action-late:{}", a);
+                        }
+                    }
+                }
             }
             if let Some(a) = info2.aid.get() {
                 let mut ar = it.action_runs.borrow_mut();
@@ -1437,6 +1446,7 @@ impl Interp {
         self.oracle_counters();
         self.oracle_counts();
         self.oracle_meta();
+        self.oracle_actions();
         if was_collect {
             self.oracle_complete();
         }
@@ -1647,6 +1657,29 @@ impl Interp {
         }
         cnt
     }
+
+    /// C10: in a panic-free run, once the value owning a `Cleaner` is gone (dropped by reference counting, reclaimed by the
+    /// collector, or moved out and dropped) every action registered on it has run by the time the operation returns.
+    #[cfg(feature = "clean")]
+    fn oracle_actions(&self) {
+        if self.panicked_ever.get() || self.leaky.get() || self.cb_depth.get() != 0 {
+            return;
+        }
+        let runs = self.action_runs.borrow();
+        for a in self.actions.borrow().iter() {
+            let (Some(aid), Some(map)) = (a.aid.get(), a.map_id.get()) else { continue };
+            if runs.get(&aid).copied().unwrap_or(0) != 0 {
+                continue;
+            }
+            let Some(m) = self.info(map) else { continue };
+            let Some(o) = self.info(m.owner) else { continue };
+            if !self.value_alive(&o) {
+                ev!("!action-skipped:{}", aid);
+            }
+        }
+    }
+    #[cfg(not(feature = "clean"))]
+    fn oracle_actions(&self) {}
 
     /// C04: `strong_count` equals the number of pointers that exist (too high only after a panic).
     fn oracle_counts(&self) {
